@@ -218,24 +218,11 @@ def rule_kinds(ctx: Ctx, repo: Repo) -> None:
                   "the kind of a method is read from the class as it is now, also after an earlier stub of the same name in the process",
                   construct=f"C.f was a {first or 'plain method'}, now a {second or 'plain method'}: second classification {outs[1][1]}, expected {want2}")
     ctx.floor("R-C12.1", "classify-edit-classify histories", nh, 6)
-    # R-C12.2 the receiver flag passed to update_signature_args is the definition's own has_self
-    fct = repo.fn(ST, "FunctionDefinition.from_callable_and_traced_types")
-    ctx.functions.add(fct.fq)
-    usa = repo.fn(ST, "update_signature_args")
-    cs = [c for c in calls_in(fct.node) if dotted(c.func) == "update_signature_args"]
-    ok = len(cs) == 1
-    if ok:
-        a = bound_argument(usa, cs[0], "has_self")
-        g = cfg_of(fct)
-        n = g.node_of(cs[0])
-        ok = a is not None and isinstance(a, ast.Attribute) and a.attr == "has_self"
-        if ok and n is not None:
-            roots = g.origins(a.value, n.id)
-            ok = all(is_call_to(r, "from_callable") for r, _, _ in roots)
-            s_arg = bound_argument(usa, cs[0], "sig")
-            sroots = g.origins(s_arg, n.id) if s_arg is not None else []
-            ok = ok and all(isinstance(r, ast.Attribute) and r.attr == "signature" for r, _, _ in sroots)
-    ctx.check(ok, "R-C12.2", fct.fq, "the receiver flag and the signature both come from the same FunctionDefinition.from_callable(func)", construct="; ".join(norm(c) for c in cs))
+    # R-C12.2 the receiver flag passed to update_signature_args is the definition's own has_self, and the signature its own
+    # signature: from_callable_and_traced_types is interpreted with a definition that has a receiver and with one that has not
+    from . import c01 as _c01
+    _c01.rule_traced_types(ctx, repo, "R-C12.2", True)
+    _c01.rule_traced_types(ctx, repo, "R-C12.2", False)
 
 
 def rule_async(ctx: Ctx, repo: Repo) -> None:
